@@ -9,6 +9,7 @@ mod io;
 mod model;
 mod out;
 mod rng;
+mod topic;
 
 use std::collections::HashMap;
 
@@ -37,6 +38,13 @@ fn main() {
         ("record", "varint") => {
             let mut o = out::Out::new(&outp, shard);
             arith::record_varint(&mut o, &tier, seed);
+            let n = o.seq;
+            let shards = o.finish();
+            println!("{{\"events\":{n},\"shards\":{shards}}}");
+        }
+        ("record", "topic") => {
+            let mut o = out::Out::new(&outp, shard);
+            topic::record_topic(&mut o, &tier, seed);
             let n = o.seq;
             let shards = o.finish();
             println!("{{\"events\":{n},\"shards\":{shards}}}");
